@@ -105,7 +105,29 @@ def let_clash_part(rep, tier, coverage):
             fix(st)
     dbset = os.path.join(ROOT, "corpus", "dbs_clash.json")
     res = l1check.run(rep, "C09-let", progs, dbset, l1props.CONFIG["C09"]["relevant"])
+    # self-joins and repeated joins of tables / aliases named like generated relation names: every instance needs an alias
+    # of its own, and a generated alias must not land on a name the user chose (judged by the scope monitor SqlScope.tla)
+    import scoperun
+    shapes = [
+        "from table_0 | join table_0 (this.boss == that.id)",
+        "from table_1 | join table_1 (this.boss == that.id) | join table_1 (this.table_1.boss == that.id)",
+        "from table_1 | sort name | take 5 | join table_1 (this.boss == that.id) | join table_1 (this.boss == that.id)",
+        "from table_0 | take 3 | join table_0 (this.boss == that.id) | take 2 | join table_1 (this.boss == that.id) | join table_1 (this.table_0.boss == that.id)",
+        "from table_0 = employees | join employees (this.boss == that.id) | join employees (this.table_0.boss == that.id)",
+        "from table_1 = employees | take 4 | join employees (this.boss == that.id) | join table_0 (this.table_1.boss == that.id) | join employees (this.table_1.id == that.boss)",
+        "from employees | join table_0 = (from employees | take 2) (this.id == that.boss) | join (from employees | take 3) (this.employees.boss == that.id)",
+        "from employees | join (from employees | take 2) (this.id == that.boss) | join table_0 = (from employees | take 3) (this.employees.boss == that.id) | join table_1 (this.employees.id == that.id)",
+        "from table_2 | take 1 | join table_2 (this.boss == that.id) | take 2 | join table_2 (this.id == that.boss) | take 3 | join table_2 (this.boss == that.boss)",
+    ]
+    srcs = [{"id": f"sj{i}", "src": sh} for i, sh in enumerate(shapes)]
+    sr = scoperun.run(workdir("C09-scope"), srcs, dialects="sqlite,postgres,mssql,bigquery", nsh=2)
+    for rj in sr["rejects"]:
+        src = next(x["src"] for x in srcs if x["id"] == rj["id"])
+        rep.violation({"property": "C09", "kind": "alias-" + rj["verdict"], "dialect": rj["dialect"], "prql": src, "sql": rj["rec"].get("sql"), "event": rj["detail"],
+                       "prepare": rj["rec"].get("prepare")},
+                      {"what": "alias-" + rj["verdict"], "dialect": rj["dialect"], "src": src, "sql": rj["rec"].get("sql") or "", "detail": rj["detail"]})
     out = ident_part(rep, tier, coverage)
+    out["alias_family"] = {"sources": len(srcs), "statements_judged": sr["judged"], "rejections": len(sr["rejects"])}
     out["let_clash_family"] = {"programs": len(progs), "accepted": res["accepted"], "rejected": res["rejected"], "not_judged": res["skipped"]}
     return out
 
